@@ -230,7 +230,9 @@ def match_template(template, program):
                         raise TemplateError("Matching template parameters only supports "
                                             "one template parameter per gate argument.")
 
-                    res = solve(x-y, var)
+                    # rational=False: by default SymPy replaces floats by "simple" rationals
+                    # within ~1e-9, which moves the solution away from the program's value
+                    res = solve(x-y, var, rational=False)
                     key = str(var)[1:-1]
                     val = float(res[-1])
 
